@@ -21,7 +21,7 @@ var hostileStreams = []string{
 	"A1 LOGIN {31457280}\r\nA2 NOOP\r\n", "A1 LOGIN {31457279}\r\n", "A1 LOGIN {9223372036854775808}\r\n", "A1 LOGIN {18446744073709551617}\r\nab c\r\n", "A1 LOGIN {0}\r\n {0}\r\n\r\n",
 	"A1 APPEND INBOX (\\Seen) \" 1-Jan-2020 00:00:00 +0000\" {5}\r\nabcde\r\n", "A1 FETCH 1:* (BODY[HEADER.FIELDS (a b)]<0.1> FLAGS)\r\n", "A1 FETCH 99999999999999999999 FLAGS\r\n",
 	"A1 FETCH 1 BODY[1.2.3.4.5.6.7.8.9.MIME]<4294967295.4294967295>\r\n", "A1 UID FETCH *:* FAST\r\n", "A1 STORE 1,2,,3 +FLAGS (\\Seen)\r\n", "A1 SEARCH ((((((((ALL\r\n",
-	"A1 SEARCH NOT NOT NOT NOT (OR ALL (NOT ALL))\r\n", "A1 SEARCH CHARSET {1}\r\nx ALL\r\n", "A1 SEARCH OR\r\n", "A1 SEARCH ()\r\n", "A1 SEARCH BEFORE 32-Foo-99999\r\n",
+	"A1 SEARCH NOT NOT NOT NOT (OR ALL (NOT ALL))\r\n", "A1 SEARCH CHARSET {1}\r\nx ALL\r\n", "A1 SEARCH CHARSET UTF-7 ALL\r\n", "A1 UID SEARCH CHARSET utf-32 SUBJECT x\r\n", "A1 NOOP\x1f\r\n", "A1 SEARCH OR\r\n", "A1 SEARCH ()\r\n", "A1 SEARCH BEFORE 32-Foo-99999\r\n",
 	"A1 IDLE\r\nDONE\r\n", "DONE\r\n", "done x\r\n", "A1 IDLE\r\nA2 NOOP\r\n", "A1 STARTTLS\r\nA2 NOOP\r\n", "\x16\x03\x01\x00\xa5\x01\x00\x00\xa1\x03\x03", "A1 \x16\x03\x01\r\n",
 	"A1 ID (\"a\" NIL \"b\" \"c\")\r\n", "A1 ID (", "A1 ID NIL\r\n", "A1 LIST \"\" {1}\r\n*\r\n", "A1 LIST (((\r\n", "A1 STATUS x (MESSAGES MESSAGES", "A1 UID\r\n", "A1 UID UID UID\r\n",
 	"\x00\x00\x00", "\xff\xfe\xfd\r\n", "A\x00 NOOP\r\n", "A1 NOOP\x00\r\n", "A1 SELECT \"\x00\"\r\n", "A1 SELECT &AOk-\r\n", "+ NOOP\r\n", "* NOOP\r\n", "a]b[ NOOP\r\n",
